@@ -78,6 +78,7 @@ namespace {
     // --- model checks at grant / release ---------------------------------------------------------
     void on_grant(int i, int observed_version)
     {
+        AtomicSection atomic;
         Req& r = R[(size_t) i];
         r.grants++;
         VH_CHECK(r.grants <= r.expected_grants, "C04.granted_twice", "access %d granted %d times", i, r.grants);
@@ -121,6 +122,7 @@ namespace {
     }
     void on_release_one(int i)
     {
+        AtomicSection atomic;
         Req& r = R[(size_t) i];
         r.holders--;
         if (r.holders == 0 && r.grants == r.expected_grants)
@@ -156,6 +158,7 @@ namespace {
             using W = std::conditional_t<RW, rw_w, read_w>;
             void set_value(W w) && noexcept
             {
+                AtomicSection atomic;    // receiver = harness bookkeeping
                 Runner* s = self;
                 int idx = i;
                 Req& r = R[(size_t) idx];
@@ -199,27 +202,38 @@ namespace {
             Req& r = R[(size_t) i];
             if (r.kind == 1)
             {
-                if (h.rw)
+                std::optional<rw_w> victim;
                 {
+                    AtomicSection atomic;
+                    if (!h.rw) return;
                     if constexpr (!IsVoid)
                         VH_CHECK(h.rw->get().version == r.version_at_grant + 1, "C04.value_changed",
                             "value changed under read-write access %d", i);
-                    // the release is the start of the wrapper's destruction: the next access may be
-                    // granted from inside it
-                    on_release_one(i);
+                    victim.emplace(std::move(*h.rw));
                     h.rw.reset();
                 }
+                // the release is the start of the wrapper's destruction: the next access may be
+                // granted from inside it
+                on_release_one(i);
+                victim.reset();    // library code: preemptible
             }
             else
             {
-                while (!h.reads.empty())
+                for (;;)
                 {
-                    if constexpr (!IsVoid)
-                        VH_CHECK(h.reads.back().get().version == r.version_at_grant, "C04.value_changed",
-                            "value changed while read access %d is held (saw %d, now %d)", i, r.version_at_grant,
-                            h.reads.back().get().version);
+                    std::optional<read_w> victim;
+                    {
+                        AtomicSection atomic;
+                        if (h.reads.empty()) break;
+                        if constexpr (!IsVoid)
+                            VH_CHECK(h.reads.back().get().version == r.version_at_grant, "C04.value_changed",
+                                "value changed while read access %d is held (saw %d, now %d)", i, r.version_at_grant,
+                                h.reads.back().get().version);
+                        victim.emplace(std::move(h.reads.back()));
+                        h.reads.pop_back();
+                    }
                     on_release_one(i);
-                    h.reads.pop_back();
+                    victim.reset();
                 }
             }
         }
@@ -308,24 +322,27 @@ namespace {
                         for (int i = 0; i < n; i++)
                         {
                             Req& r = R[(size_t) i];
-                            if (r.releaser != t || r.all_released || r.action == ACT_DROP) continue;
-                            pending = true;
-                            if (r.grants == r.expected_grants && r.holders > 0)
+                            bool do_release = false;
                             {
-                                if (r.release_delay > 0)
+                                AtomicSection atomic;
+                                if (r.releaser != t || r.all_released || r.action == ACT_DROP) continue;
+                                pending = true;
+                                if (r.grants == r.expected_grants && r.holders > 0)
                                 {
-                                    r.release_delay--;
-                                    continue;
+                                    if (r.release_delay > 0)
+                                        r.release_delay--;
+                                    else
+                                        do_release = true;
                                 }
-                                release_held(i);
                             }
+                            if (do_release) release_held(i);
                         }
                         if (!pending) break;
                         std::this_thread::yield();
                     }
                 });
-            sim_quiesce(3000000);
             for (auto& t : th) t.join();
+            sim_quiesce(3000000);
         }
         std::unique_ptr<Mutex> mtx_keep;
     };
